@@ -1,4 +1,5 @@
 import ScryerModel.Proofs.AllSol
+import ScryerModel.Proofs.AllSolRun
 import ScryerModel.Proofs.Order
 /-!
 # C25 — All-solutions predicates collect exactly the solutions
@@ -19,6 +20,31 @@ tied to `solveX` by the differential run of vlib/props/C25.py.
 -/
 namespace Scryer.AllSol
 open Scryer
+
+/-! ## the oracle is well defined -/
+
+/-- Fuel monotonicity of the reference interpreter with the all-solutions predicates: a run that
+    is not out of fuel (and not outside the model) gives the same result with any larger fuel. -/
+theorem C25_solveX_mono (cfg : Cfg) (prog : Solve.Prog) (n k : Nat) (g : Term) (s : Solve.St)
+    (h : (solveX cfg n prog g s).oof = false) :
+    solveX cfg (n + k) prog g s = solveX cfg n prog g s :=
+  solveX_mono cfg prog k n g s h
+
+/-- hence a goal has at most one result, whatever fuel was used to find it. -/
+theorem C25_result_unique (cfg : Cfg) (prog : Solve.Prog) (g : Term) (s : Solve.St)
+    (n1 n2 : Nat) (h1 : (solveX cfg n1 prog g s).oof = false)
+    (h2 : (solveX cfg n2 prog g s).oof = false) :
+    solveX cfg n1 prog g s = solveX cfg n2 prog g s := by
+  have a := solveX_mono cfg prog n2 n1 g s h1
+  have b := solveX_mono cfg prog n1 n2 g s h2
+  rw [Nat.add_comm] at b
+  rw [← a, ← b]
+
+/-- `forall(C, A)` is run as `\+ (C, \+ A)` (src/lib/iso_ext.pl), by definition of `stepX`. -/
+theorem C25_forall_def (cfg : Cfg) (prog : Solve.Prog) (rec : Term → Solve.St → Solve.Res) (n : Nat)
+    (c a : Term) (s : Solve.St) :
+    stepX cfg prog rec n (.str "forall" [c, a]) s =
+      rec (.str "\\+" [.str "," [c, .str "\\+" [a]]]) s := rfl
 
 /-! ## findall/4 -/
 
